@@ -7,13 +7,20 @@ Regenerated from /repo's working tree on every run:
     `Err(SparqlWrapperError::NotImplemented("<what>"))`;
   * the `match &(query.borrow().algebra) { ... }` of `SparqlWrapper::query`: per query form
     `exec.select` / `exec.ask` / NotImplemented;
-  * the `Some(_)` arm on `query_dataset.named` in `ExecState::new`.
+  * the `Some(_)` arm on `query_dataset.named` in `ExecState::new`;
+  * two switches for the repairs proposed in notes/fixes/: whether `Or`/`And` in
+    `ArcExpression::eval` still abort on an operand's evaluation error (`eval(..)?.is_truthy()`) or
+    fold it into the three-valued table (`eval(..).and_then(|e| e.is_truthy())`,
+    notes/fixes/C13-logical-or-and-error.diff), and what `ExecState::graph` does when the dataset
+    has no named graph (`self.select(inner, &[], binding)` or an empty result,
+    notes/fixes/C13-graph-var-no-named-graph.diff).
 Any arm that is not one of these shapes, a wildcard arm, a missing or an unknown variant fails the
 extraction.  `read`, `ExtractError`, `HEADER` are injected by tools/extract.py.
 """
 import re
 
 EXEC = "sparql/src/exec.rs"
+EXPR = "sparql/src/expression.rs"
 WRAP = "sparql/src/wrapper.rs"
 
 GP_VARIANTS = ["Bgp", "Path", "Join", "LeftJoin", "Filter", "Union", "Graph", "Extend", "Minus", "Values",
@@ -195,6 +202,43 @@ def extract_dispatch(repo):
     missing = [v for v in Q_VARIANTS if v not in qtable]
     if missing:
         raise ExtractError("%s: query: forms without an arm: %s" % (WRAP, missing))  # noqa: F821
+    # --- exec.rs graph(): no named graph
+    gbody = _fn_body(text, r"fn graph\(\s*&mut self,\s*name: &NamedNodePattern,[^{]*\{", EXEC + ": ExecState::graph")
+    m = re.search(r"if graph_names\.is_empty\(\) \{(.*?)\} else \{", gbody, re.S)
+    if not m:
+        raise ExtractError("%s: graph: `if graph_names.is_empty() {..} else {..}` not found" % EXEC)  # noqa: F821
+    arm = re.sub(r"\s+", " ", m.group(1)).strip()
+    if arm == "self.select(inner, &[], binding)":
+        graph_empty_fixed = False
+    elif re.fullmatch(r"Ok\(Bindings \{ variables, iter: Box::new\(std::iter::empty\(\)\),? \}\)", arm):
+        graph_empty_fixed = True
+    else:
+        raise ExtractError("%s: graph: unknown handling of a dataset without named graphs: %r" % (EXEC, arm))  # noqa: F821
+    # --- expression.rs Or / And
+    etext = read(repo, EXPR)  # noqa: F821
+    ev = _fn_body(etext, r"pub fn eval<D>\(\s*&self,\s*binding: &Binding,[^{]*\{", EXPR + ": ArcExpression::eval")
+    strict = re.compile(r"let lhs = lhs\.eval\(binding, config, graph_matcher\)\?\.is_truthy\(\); "
+                        r"let rhs = rhs\.eval\(binding, config, graph_matcher\)\?\.is_truthy\(\); match \(lhs, rhs\)")
+    lenient = re.compile(r"let lhs = lhs \.eval\(binding, config, graph_matcher\) \.and_then\(\|e\| e\.is_truthy\(\)\); "
+                         r"let rhs = rhs \.eval\(binding, config, graph_matcher\) \.and_then\(\|e\| e\.is_truthy\(\)\); match \(lhs, rhs\)")
+    lenient2 = re.compile(r"let lhs = lhs\.eval\(binding, config, graph_matcher\)\.and_then\(\|e\| e\.is_truthy\(\)\); "
+                          r"let rhs = rhs\.eval\(binding, config, graph_matcher\)\.and_then\(\|e\| e\.is_truthy\(\)\); match \(lhs, rhs\)")
+    modes = []
+    for k in ("Or", "And"):
+        m = re.search(r"\b%s\(lhs, rhs\) => \{" % k, ev)
+        if not m:
+            raise ExtractError("%s: eval: arm %s(lhs, rhs) not found" % (EXPR, k))  # noqa: F821
+        end = _balanced(ev, m.end() - 1, EXPR + ": eval")
+        body = re.sub(r"\s+", " ", ev[m.end():end - 1]).strip()
+        if strict.match(body):
+            modes.append(False)
+        elif lenient.match(body) or lenient2.match(body):
+            modes.append(True)
+        else:
+            raise ExtractError("%s: eval: arm %s evaluates its operands in a way the model does not know: %r" % (EXPR, k, body[:160]))  # noqa: F821
+    if modes[0] != modes[1]:
+        raise ExtractError("%s: eval: Or and And treat operand errors differently" % EXPR)  # noqa: F821
+    or_and_lenient = modes[0]
     out = [HEADER,  # noqa: F821
            "namespace SophiaModel.Gen.SparqlDispatch\n\n",
            "inductive Action\n  | handler (name : String)\n  | notImplemented (what : String)\n  deriving Repr, DecidableEq, Inhabited\n\n",
@@ -206,8 +250,15 @@ def extract_dispatch(repo):
            ",\n   ".join("(%s, %s)" % (_lean_str(n), _action(qtable[n])) for n, _ in qarms) + "]\n\n",
            "/-- `ExecState::new`: the arm taken when the query dataset has a `named` list -/\n",
            "def fromNamed : Action := %s\n\n" % _action(from_named),
+           "/-- `Or`/`And` of `ArcExpression::eval` fold an operand's evaluation error into the three-valued\n"
+           "truth table (`true` once notes/fixes/C13-logical-or-and-error.diff is applied) instead of aborting -/\n",
+           "def orAndLenient : Bool := %s\n\n" % ("true" if or_and_lenient else "false"),
+           "/-- `ExecState::graph` returns no solution for `GRAPH ?g` over a dataset without named graphs\n"
+           "(`true` once notes/fixes/C13-graph-var-no-named-graph.diff is applied) -/\n",
+           "def graphEmptyFixed : Bool := %s\n\n" % ("true" if graph_empty_fixed else "false"),
            "end SophiaModel.Gen.SparqlDispatch\n"]
-    return "".join(out), {"select": table, "query": qtable, "from_named": from_named}
+    return "".join(out), {"select": table, "query": qtable, "from_named": from_named,
+                          "or_and_lenient": or_and_lenient, "graph_empty_fixed": graph_empty_fixed}
 
 
 EXTRACTORS = {"sparql_dispatch": ("SparqlDispatch.lean", extract_dispatch)}
